@@ -18,11 +18,14 @@ class XmlGenerator(TreeListener):
         self.xml = {}
 
     def exitEquation(self, tree: ast.Equation):
-        self.xml[tree] = E(
-            "equal",
-            self.xml[tree.left],
-            self.xml[tree.right],
-        )
+        left = tree.left
+        if isinstance(left, ast.Symbol):
+            # Declaration-value equation (`Real x = 3;`): refer to the variable.  The symbol's own
+            # <component> element belongs to the class; lxml would move it out of <equal> again.
+            left_xml = E("local", name=left.name)
+        else:
+            left_xml = self.xml[left]
+        self.xml[tree] = E("equal", left_xml, self.xml[tree.right])
 
     def exitExpression(self, tree: ast.Expression):
         if isinstance(tree.operator, ast.ComponentRef):
